@@ -43,8 +43,27 @@ def run_property(pid, tier, replay=None):
     except common.MachineryError as e:
         print("MACHINERY-FAILURE property=%s %s" % (pid, e))
         return 2
-    except Exception:
+    except Exception as e:
         traceback.print_exc()
+        # An exception that escapes from a LIBRARY call the harness makes unguarded: on the tree the harness was
+        # written against that call returns (otherwise the check could never have passed), so the library now raises
+        # where it did not - reported as a violation of the property whose replay was running, with the traceback as
+        # the replay.  Anything raised by the harness itself stays a machinery failure.
+        frames = traceback.extract_tb(e.__traceback__)
+        lib = os.path.join(os.path.realpath(common.REPO), "spatialmath") + os.sep
+        inlib = [f for f in frames if os.path.realpath(f.filename).startswith(lib)]
+        if inlib:
+            import hashlib
+            site = "%s.%s" % (os.path.basename(inlib[-1].filename)[:-3], inlib[-1].name)
+            key = "%s|%s|unguarded-call-of-the-replay|raised-%s" % (pid, site.replace("|", "_").replace(" ", "_"), type(e).__name__)
+            d = os.path.join(common.VERIF, "replays", pid)
+            os.makedirs(d, exist_ok=True)
+            path = os.path.join(d, "unguarded_%s.json" % hashlib.md5(key.encode()).hexdigest()[:12])
+            with open(path, "w") as f:
+                json.dump({"property": pid, "key": key, "cases": [{"traceback": traceback.format_exc().splitlines()[-40:]}]}, f, indent=1)
+            print("VIOLATION property=%s replay=%s key=%s cases=1 first=%s" % (pid, path, key, json.dumps(str(e))[:200]))
+            common.write_evidence(pid, tier, "model_checking", {"aborted_by_library_exception": key}, [], time.time() - t0, 1)
+            return 1
         print("MACHINERY-FAILURE property=%s unexpected exception" % pid)
         return 2
     judge, coverage, assumptions = out["judge"], out["coverage"], out["assumptions"]
